@@ -224,6 +224,8 @@ def unwrap(ty, v):
     if isinstance(ty, tuple) and ty[0] == "list":
         if isinstance(v, VBox):
             v = v.val
+        if v.pyval == [] and v._t is None and v.view is None:
+            return z3.Empty(sort_of(ty))       # the polymorphic empty list
         return v.t
     if isinstance(ty, tuple) and ty[0] == "tuple":
         sort_of(ty)
